@@ -21,7 +21,9 @@ FUZZ_RUNS = 40000        # thorough tier: atheris workers, -runs per worker
 RULE = ('Hypothesis draws 1..8 events on a 0.5 grid (duplicate times split '
         'into several events with disjoint variables, several events between '
         'two ticks), a listing permutation, a timeline timestep in '
-        '{0.5,1,2,4} and 1..3 update() chunks; executed (a) by driving '
+        '{0.5,1,2,4}, 1..3 update() chunks and the initial value of the '
+        'timeline\'s own clock (0, 0.5, 1 or 3: events already past fire in the '
+        'first tick); executed (a) by driving '
         'TimelineProcess.next_update tick by tick, (b) in an Engine wired '
         'directly, (c) through composition.add_timeline; a Step adds 1 to '
         'every driven variable in every phase so a repeated set is visible. '
@@ -62,7 +64,9 @@ def strategy_(draw, tier):
     nchunks = draw(st.integers(1, 3))
     chunks = [draw(st.integers(1, 6)) for _ in range(nchunks)]
     mode = draw(st.sampled_from(['direct', 'engine', 'helper', 'experiment']))
-    return {'mode': mode, 'dt': dt, 'chunks': chunks,
+    # the timeline's own clock (global/time) may start later than 0
+    t0 = draw(st.sampled_from([0, 0, 0, 0.5, 1.0, 3.0]))
+    return {'mode': mode, 'dt': dt, 'chunks': chunks, 't0': t0,
             'events': [list(e) for e in events]}
 
 
@@ -94,6 +98,8 @@ def classify(spec, res):
     if any(len(v) > 1 for v in ticks.values()):
         res.label('tick.multiple_due')
     res.label('mode.' + spec['mode'])
+    if spec.get('t0'):
+        res.label('clock_starts_late')
     res.nontrivial = bool(res.labels & {
         'listing.unsorted', 'times.duplicate', 'tick.multiple_due'})
 
@@ -103,14 +109,15 @@ def run_direct(spec, res):
     dt = spec['dt']
     nticks = sum(spec['chunks'])
     events = build_events(spec)
-    expected = ref.fired_per_tick(build_events(spec), dt, nticks)
+    t0 = spec.get('t0', 0)
+    expected = ref.fired_per_tick(build_events(spec), dt, nticks, t0)
     tp = TimelineProcess({'timeline': events, 'time_step': dt})
     schema = tp.ports_schema()
     want_ports = {k[0] for _, ch in build_events(spec) for k in ch} | {'global'}
     if set(schema) != want_ports:
         res.fail('ports', 'ports %r != %r' % (sorted(schema), sorted(want_ports)))
     for k in range(nticks):
-        now = k * dt
+        now = t0 + k * dt
         upd = tp.next_update(dt, {'global': {'time': now}})
         got = {}
         for port, sub in upd.items():
@@ -175,6 +182,7 @@ def run_experiment(spec, res):
     engine = process_in_experiment(
         make_declarer(varkeys),
         settings={'timeline': {'timeline': events, 'time_step': dt},
+                  'initial_state': {'global': {'time': spec.get('t0', 0)}},
                   'display_info': False})
     total = 0
     for c in spec['chunks']:
@@ -183,7 +191,8 @@ def run_experiment(spec, res):
     data = engine.emitter.get_data()
     # the declarer runs with timestep 1: rows also exist at whole seconds;
     # compare at the timeline's ticks
-    expected = ref.trajectory(build_events(spec), dt, total, varkeys, inc=0)
+    expected = ref.trajectory(build_events(spec), dt, total, varkeys, inc=0,
+                              t0=spec.get('t0', 0))
     for k in range(total + 1):
         t = k * dt
         row = data.get(t)
@@ -220,13 +229,15 @@ def run_engine(spec, res):
     steps = {'inc': make_inc_step(varkeys)}
     topology['inc'] = {p: (p,) for p in ports}
     engine = Engine(processes=processes, steps=steps, topology=topology,
+                    initial_state={'global': {'time': spec.get('t0', 0)}},
                     display_info=False, emitter='timeseries')
     total = 0
     for c in spec['chunks']:
         engine.update(c * dt)
         total += c
     data = engine.emitter.get_data()
-    expected = ref.trajectory(build_events(spec), dt, total, varkeys)
+    expected = ref.trajectory(build_events(spec), dt, total, varkeys,
+                              t0=spec.get('t0', 0))
     times = sorted(data)
     want_times = [k * dt for k in range(total + 1)]
     if times != want_times:
